@@ -23,6 +23,20 @@ LEVEL = "proof"
 
 # ----------------------------------------------------------------------------- universe
 
+
+def regenerate(res):
+    """T10: expiry conditions / queue duration / mixin order of ringbuffer.py -> coq/Gen/RingbufGen.v"""
+    import sys
+    sys.path.insert(0, os.path.join(common.VERIF, "translate"))
+    import c2gallina
+    import ringbuf2gallina
+    try:
+        text = ringbuf2gallina.translate(common.REPO)
+    except c2gallina.Unsupported as e:
+        res.broken.append("translator T10 (ringbuf2gallina) rejects the current ringbuffer.py: %s" % e)
+        return
+    common.write_if_changed(os.path.join(common.COQ, "Gen", "RingbufGen.v"), text)
+
 def pstr(top, p):
     g, k, s = p
     if g >= 0:
